@@ -397,6 +397,10 @@ class LazyIndexer:
                     selection.append([(slice(0, 1, 1), slice(0, 0, 1), slice(0, 0, 1))])
                     segment_sizes.append([0])
                     continue
+                if dim_keep[0] < 0 or dim_keep[-1] >= dim_len:
+                    # Segment slices that stick out of the dataset come back shorter than expected and may be
+                    # broadcast into the output, silently repeating data
+                    raise IndexError(f'LazyIndexer advanced integer indices out of range for axis of length {dim_len}')
                 # Split indices into multiple contiguous segments (specified by first and one-past-last data indices)
                 jumps = np.nonzero(np.diff(dim_keep) > 1)[0]
                 first = [dim_keep[0]] + dim_keep[jumps + 1].tolist()
